@@ -12,28 +12,35 @@ MANIFEST = {
     "text": "Lean 4 proof, for every configuration, every random draw inside the range the code asks for, every response "
             "sequence and every run length, about executable models of PeriodicAgent / DataManipulationAgent (first action at "
             "start+d0 with |d0|<=start_variance, gaps in [f-v, f+v], at most max_executions, only the configured application on "
-            "a configured start node), of numpy's inverse-CDF sampler as ProbabilisticAgent uses it (least index with u < cdf; "
-            "an action with probability zero is never selected; the vector entry i is the probability configured for action "
-            "i), and of the TAP001 / TAP003 kill chains transcribed method by method (per tick the stage stays, moves to the "
-            "next stage, to FAILED, or restarts per repeat_kill_chain; no stage is skipped; a stage body runs only after a "
-            "successful response, exceptions listed; actions_concluded is absorbing and set exactly per settings; execution "
-            "slots respect start/frequency/variance; run level: gaps between consecutive execution slots lie in [max 1 (f-v), max 1 (f+v)], "
-            "every non-idle action is returned in a slot, actions_concluded implies repeat off and a finished chain), and of RandomAgent "
-            "(returns the sampled entry of its action map). Tie: enums, dispatch order, comparators, defaults and the vector shape "
-            "regenerated from the sources (Gen/Agents.lean, obligations C19_gen_*) + differential rig R-agent feeding the real "
-            "agents timesteps, prescribed draws and synthetic responses, plus property oracles on agent.history in the shipped "
-            "UC2 / UC7 scenarios under random blue actions; get_action signatures vs the game's call, the empty-history guard, the EXPLOIT "
-            "trial guard and the source expression of every TAP action parameter are regenerated and pinned (C19_gen_*), and a "
-            "parameter oracle recomputes every parameter of every TAP action from the settings.",
-    "note": "C19-specific: numpy's Generator.choice and random.randint/choice/random are modelled, not verified; probabilities in "
-            "the rig are dyadic so that float comparison is exact; action *parameters* other than node / application / scan "
-            "target are checked by a pinned source table plus an implementation-side oracle, not by a theorem.",
+            "a configured start node), of numpy's Generator.choice as ProbabilisticAgent uses it (argument checks incl. the accepted "
+            "band |sum-1|<=2^-26; least index with u < cdf; a right-sided binary search over any number type never returns an index "
+            "of probability zero, sums different from 1 and leading / trailing zeros included; the vector entry i is the probability "
+            "configured for action i), and of the TAP001 / TAP003 kill chains transcribed method by method WITH the parameters of "
+            "their actions. Run level (induction over the tick list with reachable-state invariants): one theorem per TAP for the "
+            "kill chain over whole runs (order, no skipping, never backwards without repeat, a finished chain never acts, stops for "
+            "good / restarts at the first execution slot per repeat_kill_chain, failure branches included); actions_concluded is "
+            "switched on exactly in an end-of-chain slot; gaps between consecutive execution slots in [max 1 (f-v), max 1 (f+v)] and "
+            "between consecutive ACTING ticks k such gaps; TAP003: the stage advances only after the run's own success response, "
+            "EXPLOIT.probability<=0 => never an ACL command; every TAP001 action of DOWNLOAD..C2 runs on the selected start node (element "
+            "of starting_nodes, or the default) and every c2-server-* action on the configured C2 server, scan targets are configured network addresses / the previous live hosts / the "
+            "selected target, TAP003 credentials, account changes and ACL fields come from the configuration (ACL rules in configured "
+            "order). RandomAgent returns the sampled entry of its action map. Tie: enums, dispatch order, comparators, defaults, the "
+            "vector shape, get_action signatures, the empty-history guard, the EXPLOIT trial guard, the source expression of every TAP "
+            "action parameter (one table that also defines the model's values), the settings dicts they read, where current_host is "
+            "assigned, _select_start_node/_select_target_ip and the writers of actions_concluded are regenerated from the sources "
+            "(Gen/Agents.lean, obligations C19_gen_*) + differential rig R-agent feeding the real agents timesteps, prescribed draws and "
+            "synthetic responses and comparing the FULL action (name and every parameter) and the kill-chain state with the model at "
+            "every step, plus property oracles on agent.history in the shipped UC2 / UC7 scenarios under random blue actions.",
+    "note": "C19-specific: numpy's Generator.choice and random.randint/choice/random are modelled, not verified (the never-zero theorem for "
+            "the binary search assumes only a total order without NaN, x+0=x, 0/x=0 and a sorted cdf); probabilities in the rig are "
+            "dyadic so that float comparison is exact (sums off 1 by multiples of 2^-30); the live-host list a ping scan returns is "
+            "opaque simulator data.",
     "technique": "Lean 4 theorems over executable agent models; models tied by regenerated tables and a differential rig",
     "design_ref": "5/C19",
 }
-MODULES = ["PrimaiteModel.Props.C19", "PrimaiteModel.Props.C19Sched"]
+MODULES = ["PrimaiteModel.Props.C19", "PrimaiteModel.Props.C19Sched", "PrimaiteModel.Props.C19Run", "PrimaiteModel.Props.C19Params", "PrimaiteModel.Props.C19Sampler", "PrimaiteModel.Props.C19Nodes"]
 EXE = "drv_c19"
-KINDS = ["periodic", "prob", "tap1", "tap3", "rand"]
+KINDS = ["periodic", "prob", "probn", "tap1", "tap3", "rand"]
 
 
 def _diff_case(case: dict):
@@ -73,7 +80,7 @@ def replay(rec: dict) -> bool:
 
 
 def kind_is_prob(case: dict) -> bool:
-    return case.get("agent") == "prob"
+    return case.get("agent") in ("prob", "probn")
 
 
 def _gen_obligations(ctx: Ctx):
@@ -112,7 +119,7 @@ def run(ctx: Ctx):
         if "case" in rec:
             cases.append(("corpus:" + f.name, rec["case"]))
     per_kind = {"periodic": ctx.scale(250, 4000), "prob": ctx.scale(250, 4000), "tap1": ctx.scale(300, 5000), "tap3": ctx.scale(300, 5000),
-                "rand": ctx.scale(60, 600)}
+                "rand": ctx.scale(60, 600), "probn": ctx.scale(120, 2000)}
     for kind in KINDS:
         rng = ctx.rng.fork("agents:" + kind)
         for k in range(per_kind[kind]):
@@ -137,6 +144,12 @@ def run(ctx: Ctx):
         if any(m == "bad-op" for m, i in zip(model, impl) if i != "bad-op"):
             raise RuntimeError(f"driver rejected a line of {name}")
         _histogram(ctx, kind, case, impl)
+        if kind == "probn":
+            d = sum(w for _, w in case["table"]) - case["den"]
+            ctx.count("probn:sum-1 in 2^-30 units:" + ("0" if d == 0 else ("<=16 (inside numpy's band)" if abs(d) <= 16 else
+                      ("17..1073 (validator accepts, numpy raises)" if abs(d) <= 1073 else ">1073 (validator rejects)"))))
+            if any(w < 0 for _, w in case["table"]):
+                ctx.count("probn:negative-entry")
         ctx.case(case, _nontrivial(kind, case, impl))
         for p in problems:
             if p.startswith("params: "):
@@ -148,7 +161,7 @@ def run(ctx: Ctx):
             ctx.oblige(f"rig:draw-ranges:{name}", "correspondence", False, p)
         a, b = rig.normalise(case, impl, model)
         # property oracle evaluated on the implementation alone
-        if kind == "prob":
+        if kind in ("prob", "probn"):
             bad = _oracle_prob(case, a)
             if bad:
                 ctx.violation({"kind": "oracle", "agent": "probabilistic-agent", "what": "zero-probability-action-selected",
@@ -190,6 +203,8 @@ def _nontrivial(kind: str, case: dict, impl: List[str]) -> bool:
         return sum(1 for l in impl if l.startswith("exec")) >= 2 or any(l.startswith("raised") for l in impl)
     if kind == "prob":
         return any(w == 0 for _, w in case["table"]) and any(l.startswith("chose") for l in impl)
+    if kind == "probn":
+        return (any(w == 0 for _, w in case["table"]) and any(l.startswith("chose") for l in impl)) or any(l.startswith("r") for l in impl)
     if kind == "rand":
         return len({l for l in impl}) > 1 or any(l.startswith("raised") for l in impl)
     stages = {l.split("|")[1].split()[0] for l in impl if "|" in l}
